@@ -223,6 +223,17 @@ func init() {
 		Technique: "deductive verification: user-defined recursive spec function lbEnds (line breaks ending before a position) with engine-asserted unfoldings, well-formed-UTF-8 hypothesis as a ghost attribute of the reader, loop invariants of parse.Position; ghost errOff links every error created by NewErrorLexer to the cursor, clauses on json.Parser.Next / js.Lexer.Next / css.Parser.Err bound it to the scanned span; VCs from go/ssa discharged by z3/cvc5",
 	})
 	registerProp(&PropSpec{
+		ID: "C07", Title: "CSS tokens follow the CSS Syntax Level 3 token grammar",
+		Sel: []Sel{{Pattern: "css.Lexer.*", Levels: "F"}},
+		NotDecided: []string{
+			"completeness over token sequences (every sequence written from the railroad diagrams is returned as exactly those tokens): proved instead are per-token extents and spellings",
+			"IsIdent / IsURLUnquoted agree with the lexer (their private Input may be a copy of the argument, and Input.Restore is a closure the engine does not model)",
+			"unquoted url( ) bodies (consumeUnquotedURL) and the case-insensitive, escape-stripped recognition of 'url(' (bytes.Replace + EqualFold); proved: a URL/BadURL token ends at ')' or the end of input, and the BadURL remnant scan stops at the first ')' outside an escape",
+			"comment tokens and at-keyword / custom-property / function token extents beyond the identifier scan they share",
+		},
+		Technique: "deductive verification: closed forms over digit/hex run ends for numbers, escapes and unicode ranges; user-defined orbit functions (first stopping position along variable-length scanning units) for identifiers, strings and BadURL remnants, with engine-asserted unfoldings; fixed spellings of delimiter tokens; VCs from go/ssa discharged by z3/cvc5",
+	})
+	registerProp(&PropSpec{
 		ID: "C10", Title: "JSON parser accepts every valid document and reproduces it",
 		Sel: []Sel{{Pattern: "json.Parser.*", Levels: "STF"}, {Pattern: "json.NewParser", Levels: "S"}},
 		NotDecided: []string{"every document accepted by encoding/json is accepted (needs induction over the JSON grammar against the iterative state machine)"},
